@@ -190,3 +190,54 @@ package mapping
 //@   ensures [object-into-struct-from-its-own-entries] valueKind == 21 && typeKind == 25 && typeis(vp.value, map[string]any) ==> calls(u.processFieldStruct) == 1 && typeis(arg(processFieldStruct, 3), ptr(simpleValuer)) && sv.parent == vp.parent && typeis(sv.current, mapValuer) && unbox(sv.current, mapValuer) == unbox(vp.value, map[string]any) && result == ret(processFieldStruct)
 //@   ensures [foreign-map-is-a-mismatch] valueKind == 21 && typeKind == 25 && !typeis(vp.value, map[string]any) ==> result == errTypeMismatch && calls(processFieldStruct) == 0
 //@   ensures [primitive-path] !(valueKind == 21 && (typeKind == 25 || typeKind == 21)) && valueKind != 24 ==> calls(u.processFieldPrimitive) == 1 && arg(processFieldPrimitive, 3) == vp.value && result == ret(processFieldPrimitive)
+
+// ---------------- range= / options= / default= tags: parsing (C05) ----------------
+// parseNumberRange "[l:r)": the brackets give the inclusiveness of each end ('[' / ']' inclusive, '(' / ')'
+// exclusive, anything else is an error), the numbers are the two ':'-separated fields (a missing one is
+// unbounded), l > r is an error and l == r is accepted only when both ends are inclusive.
+//@ func isLeftInclude
+//@   prop C05
+//@   ensures [bracket] (b == 91 ==> result0 && result1 == nil) && (b == 40 ==> !result0 && result1 == nil) && (b != 91 && b != 40 ==> result1 == errNumberRange)
+//@ func isRightInclude
+//@   prop C05
+//@   ensures [bracket] (b == 93 ==> result0 && result1 == nil) && (b == 41 ==> !result0 && result1 == nil) && (b != 93 && b != 41 ==> result1 == errNumberRange)
+//@ func parseNumberRange
+//@   prop C05
+//@   opaque isLeftInclude, isRightInclude
+//@   let fields = ret(strings.Split, 0)
+//@   let l = ite(len(fields[0]) > 0, ret(strconv.ParseFloat, 0, 1), 0.0 - 179769313486231570814527423731704356798070567525844996598917476803157260780028538760589558632766878171540458953514382464234321326889464182768467546703537516986049910576551282076245490090389328944075868508455133942304583236903222948165808559332123348274797826204144723168738177180919299881250404026184124858368.0)
+//@   ensures [empty-is-an-error] len(str) == 0 ==> result1 == errNumberRange && result0 == nil
+//@   ensures [brackets-decide-inclusiveness] result1 == nil ==> result0 != nil && result0.leftInclude == ret(isLeftInclude, 0) && result0.rightInclude == ret(isRightInclude, 0) && arg(isLeftInclude, 0) == str[0] && arg(isRightInclude, 0) == strsub(str, 1, len(str))[len(str) - 2]
+//@   ensures [two-fields-needed] calls(strings.Split) == 1 && len(fields) != 2 ==> result1 == errNumberRange
+//@   ensures [ordered-bounds] result1 == nil ==> result0.left <= result0.right && (result0.left == result0.right ==> result0.leftInclude && result0.rightInclude)
+//@   ensures [left-bound-is-the-first-field] result1 == nil && len(fields[0]) > 0 ==> result0.left == ret(strconv.ParseFloat, 0, 1) && arg(strconv.ParseFloat, 0, 1) == fields[0]
+//@   ensures [right-bound-is-the-second-field] result1 == nil && len(fields[0]) > 0 && len(fields[1]) > 0 ==> result0.right == ret(strconv.ParseFloat, 0, 2) && arg(strconv.ParseFloat, 0, 2) == fields[1]
+//@   ensures [bad-bracket-is-an-error] calls(isLeftInclude) == 1 && ret(isLeftInclude, 1) != nil ==> result1 == ret(isLeftInclude, 1) && result0 == nil
+// parseOption: each tag option sets ITS field and no other: `optional` (with its dependency), `options=`,
+// `default=`, `env=`, `range=` (parsed, a bad range is an error), `inherit`, `string`; an unknown option is ignored.
+//@ func parseOption
+//@   prop C05
+//@   opaque parseProperty, parseOptions, parseNumberRange, Errorf
+//@   requires fieldOpts != nil
+//@   let isOptional = option != "inherit" && option != "string" && ret(strings.HasPrefix, 0, 1)
+//@   ensures [inherit] option == "inherit" ==> fieldOpts.Inherit && result == nil && fieldOpts.Optional == old(fieldOpts.Optional) && fieldOpts.Default == old(fieldOpts.Default)
+//@   ensures [from-string] option == "string" ==> fieldOpts.FromString && result == nil && fieldOpts.Optional == old(fieldOpts.Optional)
+//@   ensures [optional] isOptional && result == nil ==> fieldOpts.Optional && fieldOpts.Default == old(fieldOpts.Default) && fieldOpts.Range == old(fieldOpts.Range)
+//@   ensures [default-stored-as-written] calls(parseProperty) == 1 && arg(parseProperty, 1) == "default" && ret(parseProperty, 1) == nil ==> fieldOpts.Default == ret(parseProperty, 0) && result == nil && fieldOpts.Optional == old(fieldOpts.Optional) && fieldOpts.Range == old(fieldOpts.Range)
+//@   ensures [options-parsed] calls(parseProperty) == 1 && arg(parseProperty, 1) == "options" && ret(parseProperty, 1) == nil ==> calls(parseOptions, ret(parseProperty, 0)) == 1 && fieldOpts.Options == ret(parseOptions) && result == nil && fieldOpts.Default == old(fieldOpts.Default)
+//@   ensures [range-parsed-or-error] calls(parseProperty) == 1 && arg(parseProperty, 1) == "range" && ret(parseProperty, 1) == nil ==> calls(parseNumberRange, ret(parseProperty, 0)) == 1 && (ret(parseNumberRange, 1) != nil ==> result == ret(parseNumberRange, 1) && fieldOpts.Range == old(fieldOpts.Range)) && (ret(parseNumberRange, 1) == nil ==> fieldOpts.Range == ret(parseNumberRange, 0) && result == nil)
+//@   ensures [env-stored] calls(parseProperty) == 1 && arg(parseProperty, 1) == "env" && ret(parseProperty, 1) == nil ==> fieldOpts.EnvVar == ret(parseProperty, 0) && result == nil
+//@   ensures [malformed-property-is-an-error] calls(parseProperty) == 1 && ret(parseProperty, 1) != nil ==> result == ret(parseProperty, 1) && fieldOpts.Default == old(fieldOpts.Default) && fieldOpts.Range == old(fieldOpts.Range) && fieldOpts.Options == old(fieldOpts.Options)
+// parseProperty "name=value": exactly one '=' separating the name from the (trimmed) value.
+//@ func parseProperty
+//@   prop C05
+//@   opaque Errorf
+//@   ensures [one-equals-sign] len(ret(strings.Split, 0)) != 2 ==> result1 != nil && result0 == ""
+//@   ensures [value-trimmed] len(ret(strings.Split, 0)) == 2 ==> result1 == nil && result0 == ret(strings.TrimSpace) && arg(strings.TrimSpace, 0) == ret(strings.Split, 0)[1] && arg(strings.Split, 0) == val && arg(strings.Split, 1) == "="
+// parseOptions: a list in square brackets is split as grouped segments, otherwise at '|'.
+//@ func parseOptions
+//@   prop C05
+//@   opaque parseGroupedSegments
+//@   ensures [empty-no-options] len(val) == 0 ==> len(result) == 0
+//@   ensures [bracketed-list] len(val) > 0 && val[0] == 91 ==> calls(parseGroupedSegments, val) == 1 && result == ret(parseGroupedSegments)
+//@   ensures [bar-separated] len(val) > 0 && val[0] != 91 ==> calls(strings.Split) == 1 && arg(strings.Split, 0) == val && arg(strings.Split, 1) == "|" && result == ret(strings.Split, 0)
